@@ -83,6 +83,28 @@ def shapes(r, tier):
         add('holes_300', list(range(0, 300)) + list(range(400, 406)))
         b = -150 if s else 1000
         add('gapless_300_off', range(b, b + 300))
+    # spans that are congruent to n-1 modulo a narrower width (a gapless test done in a narrow type would be fooled)
+    if bits >= 16:
+        add('holes_span_mod_2_8', [0, 1, 258])
+    if bits >= 32:
+        add('holes_span_mod_2_16', [0, 1, 65538])
+        add('holes_span_mod_2_16b', [10, 11, 12, 65549])
+    if bits >= 64:
+        add('holes_span_mod_2_32', [0, 1, (1 << 32) + 2])
+    # limits of every narrower integer width (where code that guesses the width, or casts through a narrower type, breaks)
+    for w in (8, 16, 32, 64):
+        if w >= bits:
+            continue
+        um, sm = (1 << w) - 1, 1 << (w - 1)
+        cands = [('gapless_end_u%dmax' % w, range(um - 2, um + 1)), ('gapless_cross_u%dmax' % w, range(um - 1, um + 3)),
+                 ('gapless_end_i%dmax' % w, range(sm - 3, sm)), ('holes_at_u%d_limits' % w, [0, 1, sm - 1, sm, um, um + 1, um + 5])]
+        if s:
+            cands += [('gapless_start_i%dmin' % w, range(-sm, -sm + 3)), ('gapless_cross_i%dmin' % w, range(-sm - 2, -sm + 2)),
+                      ('holes_at_i%d_limits' % w, [-sm - 1, -sm, -1, 0, sm - 1, sm, sm + 3])]
+        for lab, vs in cands:
+            vs = list(vs)
+            if all(lo <= v <= hi for v in vs):
+                add(lab, vs)
     if bits >= 64:
         add('holes_i64_limits', [I64_MIN if s else 0, -1 if s else 1, 0 if s else 2, I64_MAX - 1, I64_MAX])
     if tier == 'thorough':
@@ -281,9 +303,15 @@ def render_enum(decl, cfg, name='E', derives='Clone, Copy, EnumTools', extra_att
     lines += list(decl.get('enum_attrs', []))
     if sorted_attr:
         lines.append(sorted_attr)
-    if cfg is not None:
-        lines += render_attr(cfg)
-    lines.append('#[repr(%s)]' % decl['repr'])
+    attr_lines = render_attr(cfg) if cfg is not None else []
+    rp = (cfg or {}).get('repr_pos', 'last')
+    rl = '#[repr(%s)]' % decl['repr']
+    if rp == 'first':
+        lines += [rl] + attr_lines
+    elif rp == 'middle' and len(attr_lines) >= 2:
+        lines += attr_lines[:1] + [rl] + attr_lines[1:]
+    else:
+        lines += attr_lines + [rl]
     vis = decl['vis']
     lines.append('%senum %s {' % (vis + ' ' if vis else '', name))
     for v in decl['variants']:
